@@ -435,6 +435,8 @@ pub struct WMpk {
     pub keys: BTreeMap<Vec<u8>, (bool, Vec<u8>)>,
     pub structure: WStruct,
     pub spans: Vec<(&'static str, Span)>,
+    /// ML-KEM encapsulation key of each hybridized right
+    pub eks: BTreeMap<Vec<u8>, Vec<u8>>,
 }
 
 pub fn parse_mpk(b: &[u8]) -> R<WMpk> {
@@ -451,6 +453,7 @@ pub fn parse_mpk(b: &[u8]) -> R<WMpk> {
     let nk = rd.count()?;
     spans.push(("key-count", (p, rd.pos)));
     let mut keys = BTreeMap::new();
+    let mut eks = BTreeMap::new();
     for _ in 0..nk {
         let p = rd.pos;
         let name = rd.vec()?.to_vec();
@@ -460,7 +463,7 @@ pub fn parse_mpk(b: &[u8]) -> R<WMpk> {
         let hybrid = match flag {
             0 => false,
             1 => {
-                rd.take(EK)?;
+                eks.insert(name.clone(), rd.take(EK)?.to_vec());
                 true
             }
             x => return Err(format!("public key flavour flag {x}")),
@@ -476,6 +479,7 @@ pub fn parse_mpk(b: &[u8]) -> R<WMpk> {
     Ok(WMpk {
         tpk,
         keys,
+        eks,
         structure,
         spans,
     })
